@@ -2241,7 +2241,9 @@ func (in *Interp) typesModel(f *VOpaque, args []Value, org string, t types.Type)
 		if r.Kind != "" && r.Kind != "*types.Named" && r.Kind != "*types.Alias" && r.Kind != "other" {
 			return r, true
 		}
-		return r.attr("Underlying", func() Value { return &VOpaque{Origin: r.Origin + ".Underlying()", notNamed: true} }), true
+		return r.attr("Underlying", func() Value {
+			return &VOpaque{Origin: r.Origin + ".Underlying()", notNamed: true, attrs: map[string]Value{"#underlyingOf": r}}
+		}), true
 	case "Elem", "Key", "Params", "Results", "Type", "Name":
 		if v, ok := r.attrs[f.meth]; ok {
 			if _, isNil := v.(VNil); isNil && (f.meth == "Params" || f.meth == "Results") {
